@@ -386,6 +386,76 @@ theorem single_field_corruption_rejected_na (cfg : Cfg) (now : Nat) (s : State) 
     rw [hd, hnode, ← hvalid] at hs'
     exact hs hs'
 
+/-! ### histories -/
+
+/-- the state after a whole history of remote submissions (clock value, peer, message) -/
+def run (cfg : Cfg) : State → List (Nat × Peer × Msg) → State
+  | s, [] => s
+  | s, (now, p, m) :: r => run cfg (submit cfg now s p m).2.st r
+
+theorem run_append (cfg : Cfg) (s : State) (pre : List (Nat × Peer × Msg)) (x : Nat × Peer × Msg)
+    (post : List (Nat × Peer × Msg)) :
+    run cfg s (pre ++ x :: post) =
+      run cfg (submit cfg x.1 (run cfg s pre) x.2.1 x.2.2).2.st post := by
+  induction pre generalizing s with
+  | nil => obtain ⟨now, p, m⟩ := x; rfl
+  | cons y ys ih => obtain ⟨now, p, m⟩ := y; simp only [List.cons_append, run]; exact ih _
+
+/-- For every history of messages (any orderings, duplicates, interleavings) every channel in the
+    final graph was either there initially or was put there by an announcement of the history that
+    was fully signed and whose funding output was present, unspent and correct at that moment; and
+    it is never altered afterwards. -/
+theorem history_chans_authentic (cfg : Cfg) (hav : cfg.assumeValid = false)
+    (hist : List (Nat × Peer × Msg)) (s : State) (c : Scid) (ci : ChanInfo)
+    (h : lookup c (run cfg s hist).g.chans = some ci) :
+    lookup c s.g.chans = some ci ∨
+    ∃ pre now p a post v, hist = pre ++ (now, p, Msg.ca a) :: post ∧ a.scid = c ∧ a.chain = 0 ∧
+      CaSigned a ∧ FundingOk (run cfg s pre) a v ∧ ci = a.info v := by
+  induction hist generalizing s with
+  | nil => exact Or.inl h
+  | cons x xs ih =>
+    obtain ⟨now, p, m⟩ := x
+    simp only [run] at h
+    rcases ih _ h with h1 | ⟨pre, now', p', a, post, v, hh, hs, hc, hsg, hf, hci⟩
+    · by_cases hsame : lookup c (submit cfg now s p m).2.st.g.chans = lookup c s.g.chans
+      · left; rw [← hsame]; exact h1
+      · right
+        obtain ⟨a, v, hm, hs, hc, hsg, hf, _, hl⟩ := chan_ann_authentic cfg hav now s p m c hsame
+        rw [hl] at h1
+        refine ⟨[], now, p, a, xs, v, by rw [hm]; rfl, hs, hc, hsg, hf, ?_⟩
+        cases h1; rfl
+    · right
+      exact ⟨(now, p, m) :: pre, now', p', a, post, v, by rw [hh]; rfl, hs, hc, hsg, hf, hci⟩
+
+/-- Over every history, node records exist only for our own node and for endpoints of known
+    channels: a node announcement for a node without a known channel never enters the graph. -/
+theorem history_nodes_are_endpoints (cfg : Cfg) (hist : List (Nat × Peer × Msg)) (s : State)
+    (inv : NodesAreEndpoints cfg s.g) : NodesAreEndpoints cfg (run cfg s hist).g := by
+  induction hist generalizing s with
+  | nil => exact inv
+  | cons x xs ih =>
+    obtain ⟨now, p, m⟩ := x
+    exact ih _ (nodes_are_endpoints cfg now s p m inv)
+
+/-- Over every history, the timestamp stored for a channel direction never decreases and every
+    change of it is strict (stale and equal-timestamp updates never replace a policy). -/
+theorem history_policy_ts_monotone (cfg : Cfg) (hist : List (Nat × Peer × Msg)) (s : State)
+    (k : Scid × Nat) (old : Policy) (h : lookup k s.g.pols = some old) :
+    ∃ new, lookup k (run cfg s hist).g.pols = some new ∧ old.ts ≤ new.ts := by
+  induction hist generalizing s old with
+  | nil => exact ⟨old, h, Nat.le_refl _⟩
+  | cons x xs ih =>
+    obtain ⟨now, p, m⟩ := x
+    simp only [run]
+    by_cases hsame : lookup k (submit cfg now s p m).2.st.g.pols = lookup k s.g.pols
+    · exact ih _ old (by rw [hsame]; exact h)
+    · obtain ⟨u, _, _, hl, _, hf⟩ := chan_update_authentic_fresh cfg now s p m k hsame
+      have hk : (u.scid, dirOf u.cf) = k := by assumption
+      have hlt : old.ts < u.ts := hf old (by rw [hk]; exact h)
+      obtain ⟨new, hn, hle⟩ := ih _ u.policy hl
+      have : u.policy.ts = u.ts := rfl
+      exact ⟨new, hn, by omega⟩
+
 /-! ### non-vacuity: concrete instances of every hypothesis -/
 
 namespace Example
